@@ -30,6 +30,7 @@ func scriptRT(s *exec.State, v abs.V) {
 	kind := v["k"].(string)
 	s.Reset()
 	s.Build(1, v)
+	s.Size(1) // before Marshal: nothing Marshal leaves behind may be needed for the size
 	s.Marshal(1)
 	s.Size(1)
 	s.Header(1)
@@ -494,7 +495,7 @@ func init() {
 			case 4:
 				t := g.Pick(1, 2)
 				tk := g.Pick(-40000, -32769, -32768, -1, 0, 1, 255, 256, 32767, 32768, 40000, g.Int(-33000, 33000))
-				s.UnitEncode("delta", abs.V{"t": t, "ticks": tk, "rem": 0}, 1)
+				s.UnitEncode("delta", abs.V{"t": t, "ticks": tk, "rem": 0, "big": g.Pick(0, 0, 0, 1, -1, 65536)}, 1)
 				if s.Buf[1] != nil {
 					s.UnitDecode("delta", 1)
 				}
@@ -651,4 +652,15 @@ func altValue(v abs.V) abs.V {
 		return altGen()
 	}
 	return v
+}
+
+// scriptOwn: a framed packet through the datagram decoder (with the C09 follow-up) and through the
+// decoder registered for its packet type only (cheaper than scriptDec; used for large crafted inputs).
+func scriptOwn(s *exec.State, b []byte, entry string) {
+	scriptDgram(s, b)
+	s.Unmarshal(entry, 1, 2)
+	if has(s, 2) {
+		stringOf(s, 2, 1)
+		s.Marshal(2)
+	}
 }
